@@ -622,6 +622,9 @@ class Interp:
             o = base.rsplit(".", 1)[1]
             return T.nary(o, bits, self.lanes(a, sn, bits))
         h = self.isa.get(base)
+        if h is None:
+            import isa as _isa
+            h = _isa.lookup_prefix(base)
         if h is not None:
             r = h(self, ins, args, cond)
             if r is not NotImplemented:
